@@ -14,7 +14,7 @@ import numpy as np
 from .. import quant
 from .reservoir import flow_properties, shipped_table
 
-CURVES = ("ideal", "gas", "analytic")
+CURVES = ("ideal", "gas", "analytic", "cubic")
 M_DECADES = (-9.0, 9.0)  # claimed range of M (18 decades); tau: 1e-4 .. 1e8
 TAU_DECADES = (-4.0, 8.0)
 CAP = quant.CAP
@@ -33,6 +33,14 @@ def curve(name: str):
 
     if name == "analytic":
         return _analytic
+    if name == "cubic":
+        # a user's own interpolator: cubic, on a coarse table of the ideal curve, flat beyond its ends (the forecast is M times
+        # THIS callable of t / tau, whatever kind of interpolator it is)
+        from scipy.interpolate import interp1d  # noqa: PLC0415
+
+        xs = np.linspace(0.0, np.sqrt(8.0), 45) ** 2
+        ys = np.asarray(curve("ideal")(xs), dtype=float)
+        return interp1d(xs, ys, kind="cubic", bounds_error=False, fill_value=(0.0, float(ys[-1])))
     ts = np.linspace(0, np.sqrt(8.0), 1500) ** 2
     with warnings.catch_warnings():
         warnings.simplefilter("ignore")
@@ -226,16 +234,20 @@ def fit_event(fc, conc: Conc, sup: float | None, rng: np.random.Generator | None
           "mq": qpos(m_, conc.mb[0], conc.mb[1], conc.M0), "tq": qpos(tau_, conc.tb[0], conc.tb[1], conc.tau0),
           "sq": qpos(sup, conc.tb[0], conc.tb[1], conc.tau0) if sup is not None else list(quant.NANQ),
           "tau_same": quant.e15(tau_, sup, abs(sup)) if sup is not None else 0,
-          "gen_inside": bool(conc.gen_inside()), "rt_m": e9(m_, conc.M0), "rt_tau": e9(tau_, conc.tau0),
+          # (the cubic user curve wiggles between its coarse nodes: a least-squares fit on it may have several local minima, so
+          #  round trip, unit equivariance and the closed-form optimum are demanded on the three physical curves; the scaling law,
+          #  the limits and the supplied tau are demanded for any curve)
+          "gen_inside": bool(conc.gen_inside() and conc.curve != "cubic"), "rt_m": e9(m_, conc.M0), "rt_tau": e9(tau_, conc.tau0),
           "opt_e15": 0, "opt_e9": 0, "opt_active": False, "eq_e15": -1,
           "raw": {"M_": m_, "tau_": tau_, "supplied": sup}}
-    if sup is not None and outcome == "ok":
+    if sup is not None and outcome == "ok" and conc.curve != "cubic":
         opt = bounded_optimum(conc, sup)
         ev["opt_e15"] = quant.e15(m_, opt, abs(opt)) if math.isfinite(opt) and opt != 0 else CAP
         ev["opt_e9"] = e9(m_, opt) if math.isfinite(opt) and opt != 0 else CAP
         ev["opt_active"] = bool(opt in (conc.mb[0], conc.mb[1]))   # the closed-form optimum was clipped to a bound
         ev["raw"]["optimum"] = opt
-    if sup is None and outcome == "ok" and conc.gen_inside() and rng is not None and np.asarray(conc.y).dtype.kind == "f":
+    if sup is None and outcome == "ok" and conc.gen_inside() and rng is not None and np.asarray(conc.y).dtype.kind == "f" \
+            and conc.curve != "cubic":
         # (whole-number records carry rounding noise: the optimum is then only located to the optimiser's tolerance on a flat
         #  minimum, and two runs in different units need not agree to 1e-6; the clause is demanded on exact data)
         # scale equivariance: the same data in other units (bounds on M scaled along)
@@ -306,6 +318,20 @@ def cum_event(fc, conc: Conc, m_arg: float | None, tau_arg: float | None, rng: n
         ev["lin_e15"] = ev["resc_e15"] = CAP
     ev["raw"] = {"M_used": mu, "tau_used": tu, "a": a, "k": k}
     return ev
+
+
+def d16_events() -> tuple[list[dict], dict]:
+    """The well on which defect D16 was found (round trip of a noise-free ideal-gas well, default bounds), kept as a fixed object of
+    every run: New, fit()."""
+    import json as _json  # noqa: PLC0415
+    from pathlib import Path  # noqa: PLC0415
+
+    w = _json.loads((Path(__file__).resolve().parent.parent / "data" / "d16_well.json").read_text())
+    conc = Conc(w["curve"], float(w["M0"]), float(w["tau0"]), np.asarray(w["t"], dtype=float), "lower", "lower", (0.0, math.inf),
+                (1e-10, math.inf), default=True)
+    fc = conc.new()
+    evs = [{"ev": "New", "mstyle": conc.mstyle, "tstyle": conc.tstyle}, fit_event(fc, conc, None, None)]
+    return evs, {"conc": conc.describe(), "calls": [("fit", None)], "regression_well": "D16"}
 
 
 def object_events(cname: str, kind: str, seed, small_m: bool, ncalls: int) -> tuple[list[dict], dict]:
